@@ -456,15 +456,15 @@ func writeReplay(verif, prop, name string, payload map[string]any) string {
 
 func writeEvidence(path, prop, tier string, seed int, samples []any, extra map[string]any, _ any, assumptions []string, wall float64, violations int, counts []int, eng *Engine) {
 	cov := map[string]any{
-		"checker_cmd":   "/verif/check " + prop + " (govc check: obligations generated from /repo's working tree by symbolic execution of go/ssa, discharged by z3 5.1.0 / z3 4.8.12 / cvc5 1.0.3)",
-		"trusted_base":  []string{"govc verification-condition generator (/verif/engine)", "golang.org/x/tools go/ssa + go/types", "z3 5.1.0", "z3 4.8.12", "cvc5 1.0.3", "assumed contracts in /verif/stubs"},
-		"obligations":   0,
-		"discharged":    0,
-		"samples":       samples,
-		"explanation":   "contract-based deductive verification: every obligation is named <function> <kind> <label>; 'discharged' counts obligations whose every path query was unsat; cover checks guard against vacuity",
-		"evaluations":   0,
+		"checker_cmd":         "/verif/check " + prop + " (govc check: obligations generated from /repo's working tree by symbolic execution of go/ssa, discharged by z3 5.1.0 / z3 4.8.12 / cvc5 1.0.3)",
+		"trusted_base":        []string{"govc verification-condition generator (/verif/engine)", "golang.org/x/tools go/ssa + go/types", "z3 5.1.0", "z3 4.8.12", "cvc5 1.0.3", "assumed contracts in /verif/stubs"},
+		"obligations":         0,
+		"discharged":          0,
+		"samples":             samples,
+		"explanation":         "contract-based deductive verification: every obligation is named <function> <kind> <label>; 'discharged' counts obligations whose every path query was unsat; cover checks guard against vacuity",
+		"evaluations":         0,
 		"distinct_nontrivial": 0,
-		"rule":          "one evaluation per (obligation, path) SMT query; non-trivial = not closed by the term simplifier before reaching a solver",
+		"rule":                "one evaluation per (obligation, path) SMT query; non-trivial = not closed by the term simplifier before reaching a solver",
 	}
 	if counts != nil {
 		cov["obligations"] = counts[0]
